@@ -20,102 +20,102 @@ theorem GoodKeyAt.goodFor0 {w : World} {m : KeyMeta} {o : Nat} (h : GoodKeyAt w 
 theorem GoodFor.of_nz {w : World} {m : KeyMeta} {o : Nat} (hz : m.created ≠ 0) (h : GoodFor m o w) : GoodKeyAt w m o := by
   obtain ⟨m0, _, h2, h3⟩ := h; rw [← h2 hz]; exact h3
 
-theorem generateKey_spec {a : Nat} {F : Prop} (x : Ctx) :
-    Spec a F (TimeOK x) (generateKey x) (fun k w => ∃ c m, KeyIs w k c m ∧ c ≠ 0) := by
+theorem generateKey_cspec {a : Nat} {F : Prop} (x : Ctx) :
+    CSpec a F (TimeOK x) (generateKey x) (fun k w => ∃ c m, KeyIs w k c m ∧ c ≠ 0) := by
   unfold generateKey
-  apply Spec.bind_frame Spec.get (fun _ _ _ => trivial) (Stable.timeOK x)
+  apply CSpec.bind_frame CSpec.get (fun _ _ _ => trivial) (Stable.timeOK x)
   intro w0
-  apply Spec.of_pre (C := keyTimestamp w0.now x.pol.precision ≠ 0) (by ext_auto [secretRandom_ext])
+  apply CSpec.of_pre (C := keyTimestamp w0.now x.pol.precision ≠ 0) (by ext_auto [secretRandom_ext])
     (fun w _ h => by have := h.1; unfold TimeOK at this; rw [h.2.1]; exact this)
   intro hz
-  apply Spec.bind (secretRandom_spec (P := _))
+  apply CSpec.bind (secretRandom_cspec (P := _))
   intro sm
   obtain ⟨s, m⟩ := sm
   dsimp only
-  exact (newKeyObj_spec _ _ _ _).weaken (fun _ _ _ => trivial) fun k w _ h => ⟨_, _, h, hz⟩
+  exact (newKeyObj_cspec _ _ _ _).weaken (fun _ _ _ => trivial) fun k w _ h => ⟨_, _, h, hz⟩
 
-theorem systemKeyFromEKR_spec {a : Nat} {F : Prop} (r : Row) (hk : r.kid = .sk) :
-    Spec a F (fun w => r ∈ w.store) (systemKeyFromEKR r) (fun k w => GoodKeyAt w ⟨.sk, r.created⟩ k) := by
+theorem systemKeyFromEKR_cspec {a : Nat} {F : Prop} (r : Row) (hk : r.kid = .sk) :
+    CSpec a F (fun w => r ∈ w.store) (systemKeyFromEKR r) (fun k w => GoodKeyAt w ⟨.sk, r.created⟩ k) := by
   unfold systemKeyFromEKR
-  apply Spec.bind_frame (kmsDecrypt_spec r.enc) _ (Stable.mem_store r)
+  apply CSpec.bind_frame (kmsDecrypt_cspec r.enc) _ (Stable.mem_store r)
   · intro bm
     obtain ⟨b, m⟩ := bm
     dsimp only
-    apply Spec.of_pre (C := r.enc = .kms m) (by ext_auto [secretNew_ext]) (fun w _ h => h.2)
+    apply CSpec.of_pre (C := r.enc = .kms m) (by ext_auto [secretNew_ext]) (fun w _ h => h.2)
     intro henc
-    apply Spec.pre (P := fun w => r ∈ w.store) (fun w _ h => h.1)
-    apply Spec.bind_frame (secretNew_spec b m) (fun _ _ _ => trivial) (Stable.mem_store r)
+    apply CSpec.pre (P := fun w => r ∈ w.store) (fun w _ h => h.1)
+    apply CSpec.bind_frame (secretNew_cspec b m) (fun _ _ _ => trivial) (Stable.mem_store r)
     intro s
-    apply Spec.pre (P := fun w => r ∈ w.store) (fun w _ h => h.1)
-    refine Spec.frame (newKeyObj_spec r.created r.revoked m s) (fun _ _ _ => trivial) (Stable.mem_store r)
+    apply CSpec.pre (P := fun w => r ∈ w.store) (fun w _ h => h.1)
+    refine CSpec.frame (newKeyObj_cspec r.created r.revoked m s) (fun _ _ _ => trivial) (Stable.mem_store r)
       fun k w _ hr h => GoodKeyAt.of_keyIs h ⟨r, hr, hk, rfl, ?_⟩
     unfold RowMat; rw [hk]; exact henc
   · intro w hi hr _
     have := hi.wf.good r hr
     unfold RowGood at this; rw [hk] at this; exact this
 
-theorem loadSystemKey_spec {a : Nat} {F : Prop} (m : KeyMeta) (hk : m.kid = .sk) :
-    Spec a F (fun w => F → ∃ mat, Wraps w.store m mat) (loadSystemKey m) (GoodFor m) := by
+theorem loadSystemKey_cspec {a : Nat} {F : Prop} (m : KeyMeta) (hk : m.kid = .sk) :
+    CSpec a F (fun w => F → ∃ mat, Wraps w.store m mat) (loadSystemKey m) (GoodFor m) := by
   unfold loadSystemKey
-  apply Spec.bind_frame (msLoad_spec m) (fun _ _ _ => trivial) (by stable_auto)
+  apply CSpec.bind_frame (msLoad_spec m) (fun _ _ _ => trivial) (by stable_auto)
   intro ro
   split
-  · apply Spec.throw
+  · apply CSpec.throw
     intro w _ h hF
     obtain ⟨mat, r, hr, h1, h2, _⟩ := h.1 hF
     exact findRow_none h.2.symm r hr ⟨h1, h2⟩
   · rename_i r
-    apply Spec.of_pre (C := r.kid = .sk ∧ r.created = m.created) (systemKeyFromEKR_ext r)
+    apply CSpec.of_pre (C := r.kid = .sk ∧ r.created = m.created) (systemKeyFromEKR_ext r)
       (fun w _ h => by have := findRow_some h.2.symm; exact ⟨this.2.1.trans hk, this.2.2⟩)
     intro ⟨hrk, hrc⟩
-    refine (systemKeyFromEKR_spec r hrk).weaken (fun w _ h => (findRow_some h.2.symm).1) fun k w _ h => ?_
+    refine (systemKeyFromEKR_cspec r hrk).weaken (fun w _ h => (findRow_some h.2.symm).1) fun k w _ h => ?_
     exact (h.congr (m' := m) hk.symm hrc).goodFor
 
-theorem getOrLoadSystemKey_spec {a : Nat} {F : Prop} (x : Ctx) (m : KeyMeta) (hk : m.kid = .sk) :
-    Spec a F (fun w => F → ∃ mat, Wraps w.store m mat) (getOrLoadSystemKey x m) (GoodFor m) := by
+theorem getOrLoadSystemKey_cspec {a : Nat} {F : Prop} (x : Ctx) (m : KeyMeta) (hk : m.kid = .sk) :
+    CSpec a F (fun w => F → ∃ mat, Wraps w.store m mat) (getOrLoadSystemKey x m) (GoodFor m) := by
   unfold getOrLoadSystemKey
-  exact getOrLoad_spec _ _ _ _ loadSystemKey_ext (by stable_auto) (loadSystemKey_spec m hk)
+  exact getOrLoad_cspec _ _ _ _ loadSystemKey_ext (by stable_auto) (loadSystemKey_cspec m hk)
 
 theorem mustLoadLatest_spec {a : Nat} {F : Prop} (k : KeyId) :
-    Spec a F (fun w => F → ∃ r', r' ∈ w.store ∧ r'.kid = k) (mustLoadLatest k) (fun r w => r ∈ w.store ∧ r.kid = k) := by
+    CSpec a F (fun w => F → ∃ r', r' ∈ w.store ∧ r'.kid = k) (mustLoadLatest k) (fun r w => r ∈ w.store ∧ r.kid = k) := by
   unfold mustLoadLatest
-  apply Spec.bind_frame (msLoadLatest_spec k) (fun _ _ _ => trivial) (by stable_auto)
+  apply CSpec.bind_frame (msLoadLatest_spec k) (fun _ _ _ => trivial) (by stable_auto)
   intro ro
   split
-  · apply Spec.throw
+  · apply CSpec.throw
     intro w _ h hF
     obtain ⟨r', hr', hk'⟩ := h.1 hF
     exact latestRow_none h.2.symm r' hr' hk'
-  · exact Spec.pure _ fun w _ h => latestRow_some h.2.symm
+  · exact CSpec.pure _ fun w _ h => latestRow_some h.2.symm
 
-theorem tryStoreSystemKey_spec {a : Nat} {F : Prop} (sk : Nat) (c : Int) (m : Nat) (hc : c ≠ 0) :
-    Spec a F (fun w => KeyIs w sk c m) (tryStoreSystemKey sk)
+theorem tryStoreSystemKey_cspec {a : Nat} {F : Prop} (sk : Nat) (c : Int) (m : Nat) (hc : c ≠ 0) :
+    CSpec a F (fun w => KeyIs w sk c m) (tryStoreSystemKey sk)
       (fun b w => (b = true → GoodKeyAt w ⟨.sk, c⟩ sk) ∧ (b = false → F → ∃ r', r' ∈ w.store ∧ r'.kid = .sk)) := by
   unfold tryStoreSystemKey
-  apply Spec.bind_frame (keyObj_spec sk c m fun w _ h => h) (fun _ _ h => h) (Stable.keyIs _ _ _)
+  apply CSpec.bind_frame (keyObj_spec sk c m fun w _ h => h) (fun _ _ h => h) (Stable.keyIs _ _ _)
   intro ko
-  apply Spec.of_pre (C := ko.created = c)
+  apply CSpec.of_pre (C := ko.created = c)
     (Extends.bind (withKey_ext _ _ fun m => kmsEncrypt_ext m) fun _ => msStore_ext _) (fun w _ h => h.2.1)
   intro hkc
-  apply Spec.pre (P := fun w => KeyIs w sk c m) (fun w _ h => h.1)
-  apply Spec.bind_frame (P' := fun w => KeyIs w sk c m) (G1 := fun enc _ => enc = .kms m) _ (fun _ _ h => h) (Stable.keyIs _ _ _)
+  apply CSpec.pre (P := fun w => KeyIs w sk c m) (fun w _ h => h.1)
+  apply CSpec.bind_frame (P' := fun w => KeyIs w sk c m) (G1 := fun enc _ => enc = .kms m) _ (fun _ _ h => h) (Stable.keyIs _ _ _)
   · intro enc
-    apply Spec.of_pre (C := enc = .kms m) (msStore_ext _) (fun w _ h => h.2)
+    apply CSpec.of_pre (C := enc = .kms m) (msStore_ext _) (fun w _ h => h.2)
     intro henc
-    apply Spec.pre (P := fun w => KeyIs w sk c m) (fun w _ h => h.1)
-    refine Spec.frame (msStore_spec _) (fun w _ h => ⟨?_, by simpa [hkc] using hc⟩) (Stable.keyIs _ _ _) fun b w _ hki h => ⟨fun hb => ?_, fun hb hF => ?_⟩
+    apply CSpec.pre (P := fun w => KeyIs w sk c m) (fun w _ h => h.1)
+    refine CSpec.frame (msStore_spec _) (fun w _ h => ⟨?_, by simpa [hkc] using hc⟩) (Stable.keyIs _ _ _) fun b w _ hki h => ⟨fun hb => ?_, fun hb hF => ?_⟩
     · unfold RowGood; exact ⟨m, henc⟩
     · refine GoodKeyAt.of_keyIs hki ⟨_, h.1 hb, rfl, hkc, ?_⟩
       unfold RowMat; exact henc
     · obtain ⟨r', h1, h2, _⟩ := h.2 hb hF
       exact ⟨r', h1, h2⟩
-  · exact Spec.withKey m (fun w _ h => ⟨c, h⟩) (fun m => kmsEncrypt_ext m) (kmsEncrypt_spec m)
+  · exact CSpec.withKey m (fun w _ h => ⟨c, h⟩) (fun m => kmsEncrypt_ext m) (kmsEncrypt_spec m)
 
 /-- the tail of `createSK` after a failed store: close the unsaved key, re-read the latest row. -/
-theorem createSK_spec {a : Nat} {F : Prop} (x : Ctx) :
-    Spec a F (TimeOK x) (loadLatestOrCreateSystemKey.createSK x) (GoodFor ⟨.sk, 0⟩) := by
+theorem createSK_cspec {a : Nat} {F : Prop} (x : Ctx) :
+    CSpec a F (TimeOK x) (loadLatestOrCreateSystemKey.createSK x) (GoodFor ⟨.sk, 0⟩) := by
   unfold loadLatestOrCreateSystemKey.createSK
-  apply Spec.bind (generateKey_spec x)
+  apply CSpec.bind (generateKey_cspec x)
   intro sk
   have hext : Extends (do
       match ← tryM (tryStoreSystemKey sk) with
@@ -128,49 +128,49 @@ theorem createSK_spec {a : Nat} {F : Prop} (x : Ctx) :
         keyCloseRaw sk
         throw e) := by
     ext_auto [tryStoreSystemKey_ext, keyCloseRaw_ext, mustLoadLatest_ext, systemKeyFromEKR_ext]
-  apply Spec.exists_pre hext; intro c
-  apply Spec.exists_pre hext; intro m
-  apply Spec.of_pre (C := c ≠ 0) hext (fun w _ h => h.2)
+  apply CSpec.exists_pre hext; intro c
+  apply CSpec.exists_pre hext; intro m
+  apply CSpec.of_pre (C := c ≠ 0) hext (fun w _ h => h.2)
   intro hc
-  apply Spec.pre (P := fun w => KeyIs w sk c m) (fun w _ h => h.1)
-  apply Spec.bind (tryStoreSystemKey_spec sk c m hc).tryM
+  apply CSpec.pre (P := fun w => KeyIs w sk c m) (fun w _ h => h.1)
+  apply CSpec.bind (tryStoreSystemKey_cspec sk c m hc).tryM
   intro res
   split
-  · exact Spec.pure _ fun w _ h => ((h.1 _ rfl).1 rfl).goodFor0
-  · apply Spec.pre (P := fun w => F → ∃ r', r' ∈ w.store ∧ r'.kid = KeyId.sk) (fun w _ h hF => (h.1 _ rfl).2 rfl hF)
-    apply Spec.bind_frame (keyCloseRaw_spec sk) (fun _ _ _ => trivial) (by stable_auto)
+  · exact CSpec.pure _ fun w _ h => ((h.1 _ rfl).1 rfl).goodFor0
+  · apply CSpec.pre (P := fun w => F → ∃ r', r' ∈ w.store ∧ r'.kid = KeyId.sk) (fun w _ h hF => (h.1 _ rfl).2 rfl hF)
+    apply CSpec.bind_frame (keyCloseRaw_cspec sk) (fun _ _ _ => trivial) (by stable_auto)
     intro _
-    apply Spec.pre (P := fun w => F → ∃ r', r' ∈ w.store ∧ r'.kid = KeyId.sk) (fun w _ h => h.1)
-    apply Spec.bind (mustLoadLatest_spec .sk)
+    apply CSpec.pre (P := fun w => F → ∃ r', r' ∈ w.store ∧ r'.kid = KeyId.sk) (fun w _ h => h.1)
+    apply CSpec.bind (mustLoadLatest_spec .sk)
     intro r
-    apply Spec.of_pre (C := r.kid = .sk) (systemKeyFromEKR_ext r) (fun w _ h => h.2)
+    apply CSpec.of_pre (C := r.kid = .sk) (systemKeyFromEKR_ext r) (fun w _ h => h.2)
     intro hrk
-    exact (systemKeyFromEKR_spec r hrk).weaken (fun w _ h => h.1) fun k w _ h => h.goodFor0
-  · apply Spec.of_mode (by ext_auto [keyCloseRaw_ext])
+    exact (systemKeyFromEKR_cspec r hrk).weaken (fun w _ h => h.1) fun k w _ h => h.goodFor0
+  · apply CSpec.of_mode (by ext_auto [keyCloseRaw_ext])
     · intro hF
-      apply Spec.pre (P := fun _ => False) (fun w _ h => by obtain ⟨v, hv⟩ := h.2 hF; cases hv)
+      apply CSpec.pre (P := fun _ => False) (fun w _ h => by obtain ⟨v, hv⟩ := h.2 hF; cases hv)
       exact ⟨by ext_auto [keyCloseRaw_ext], fun w _ _ _ h => h.elim⟩
     · intro hF
-      apply Spec.bind (keyCloseRaw_spec sk)
+      apply CSpec.bind (keyCloseRaw_cspec sk)
       intro _
-      exact Spec.throw _ fun _ _ _ => hF
+      exact CSpec.throw _ fun _ _ _ => hF
 
-theorem loadLatestOrCreateSystemKey_spec {a : Nat} {F : Prop} (x : Ctx) :
-    Spec a F (TimeOK x) (loadLatestOrCreateSystemKey x) (GoodFor ⟨.sk, 0⟩) := by
+theorem loadLatestOrCreateSystemKey_cspec {a : Nat} {F : Prop} (x : Ctx) :
+    CSpec a F (TimeOK x) (loadLatestOrCreateSystemKey x) (GoodFor ⟨.sk, 0⟩) := by
   unfold loadLatestOrCreateSystemKey
-  apply Spec.bind_frame (msLoadLatest_spec .sk) (fun _ _ _ => trivial) (Stable.timeOK x)
+  apply CSpec.bind_frame (msLoadLatest_spec .sk) (fun _ _ _ => trivial) (Stable.timeOK x)
   intro ro
-  apply Spec.pre (P := fun w => TimeOK x w ∧ ∀ r, ro = some r → r ∈ w.store ∧ r.kid = .sk)
+  apply CSpec.pre (P := fun w => TimeOK x w ∧ ∀ r, ro = some r → r ∈ w.store ∧ r.kid = .sk)
     (fun w _ h => ⟨h.1, fun r hr => latestRow_some (hr ▸ h.2).symm⟩)
-  apply Spec.bind_frame Spec.get (fun _ _ _ => trivial) (by stable_auto)
+  apply CSpec.bind_frame CSpec.get (fun _ _ _ => trivial) (by stable_auto)
   intro w0
   split
   · rename_i r
-    apply Spec.ite <;> intro _
-    · apply Spec.of_pre (C := r.kid = .sk) (systemKeyFromEKR_ext r) (fun w _ h => (h.1.2 r rfl).2)
+    apply CSpec.ite <;> intro _
+    · apply CSpec.of_pre (C := r.kid = .sk) (systemKeyFromEKR_ext r) (fun w _ h => (h.1.2 r rfl).2)
       intro hrk
-      exact (systemKeyFromEKR_spec r hrk).weaken (fun w _ h => (h.1.2 r rfl).1) fun k w _ h => h.goodFor0
-    · exact (createSK_spec x).pre fun w _ h => h.1.1
-  · exact (createSK_spec x).pre fun w _ h => h.1.1
+      exact (systemKeyFromEKR_cspec r hrk).weaken (fun w _ h => (h.1.2 r rfl).1) fun k w _ h => h.goodFor0
+    · exact (createSK_cspec x).pre fun w _ h => h.1.1
+  · exact (createSK_cspec x).pre fun w _ h => h.1.1
 
 end AsherahVerif.Env
